@@ -72,19 +72,79 @@ def scens(ctx, n):
     return out
 
 
+def start_with_part(ctx):
+    """--start-with-pass: run_pass calls before the named pass do nothing at all (no candidate started, no commit), the
+    named pass and everything after it run normally.  Real code only (the L2 model has no such option): judged directly."""
+    import shutil
+    import tempfile
+    from pathlib import Path
+    import harness_drv as H
+    for k in range(12 if ctx.tier == 'quick' else 120):
+        s = D.gen_scenario(ctx.rng, {'p_contract': 1.0, 'files': [1, 2], 'p_twin': 0.0, 'p_fmt': 0.0})
+        for p in s['passes']:
+            p['maxT'] = ctx.rng.choice([None, None, 2])
+        s['cfg'] = {'cacheOn': False, 'silent': True}
+        order = s['groups']['first'] + s['groups']['main']
+        j = ctx.rng.randrange(len(order))
+        target = s['passes'][order[j]]
+        s['cfg']['startWith'] = f"TablePass::{target['name']}" + (f" ({target['maxT']} T)" if target['maxT'] is not None else '')
+        s['budget_s'] = 8
+        s['sw_order'], s['sw_j'] = order, j
+        judge_start_with(ctx, s, k)
+
+
+def judge_start_with(ctx, s, k):
+    import shutil
+    import tempfile
+    from pathlib import Path
+    import harness_drv as H
+    order = s.get('sw_order') or (s['groups']['first'] + s['groups']['main'])
+    j = s.get('sw_j')
+    if j is None:
+        j = next(i for i, pi in enumerate(order) if s['cfg']['startWith'].startswith('TablePass::' + s['passes'][pi]['name']))
+    if True:
+        d = Path(tempfile.mkdtemp(prefix='sw-', dir=ctx.scratch))
+        try:
+            obs = H.run_real(s, d, rng=ctx.rng)
+        finally:
+            shutil.rmtree(d, ignore_errors=True)
+        ctx.count()
+        before = set(order[:j]) - {order[j]}
+        ran_before = [i for i in before if obs['stats'].get(i, (0, 0, 0))[2] > 0 and i not in order[j:]]
+        # a pass listed again after the named one legitimately runs then: only judge passes that occur before it exclusively
+        later = set(order[j:]) | set(s['groups']['last']) | set(s['groups']['main'])
+        ran_before = [i for i in ran_before if i not in later]
+        sc = {'kind': 'start-with', 'scenario': s}
+        if ran_before:
+            ctx.report('pass-before-start-with-pass-ran', f"--start-with-pass {s['cfg']['startWith']}: pass {ran_before[0]} started candidates although it only occurs before it", sc)
+        started_any = any(v[2] > 0 for v in obs['stats'].values())
+        marked = [m[1] for m in obs.get('marked', [])]
+        if obs['outcome'] == 'ok' and order[j] not in [i for i in marked]:
+            ctx.report('start-with-pass-never-reached', f"run_pass was never called for {s['cfg']['startWith']}", sc)
+        if started_any:
+            ctx.nontrivial(('start-with', k))
+
+
 def run(ctx):
     if ctx.replay:
-        D.replay_drv(ctx, json.load(open(ctx.replay)), [oracle, oracle_zero])
+        o = json.load(open(ctx.replay))
+        if o.get('kind') == 'start-with':
+            judge_start_with(ctx, o['scenario'], 0)
+            print('replayed ->', 'fails' if ctx.violations else 'holds')
+            return 1 if ctx.violations else 0
+        D.replay_drv(ctx, o, [oracle, oracle_zero])
         return 1 if ctx.violations else 0
     ctx.lean_gate(OBLIGATIONS)
     diffs = []
     rows = D.sweep(ctx, scens(ctx, 400 if ctx.tier == 'quick' else 6000), [oracle, oracle_zero], diffs, nontriv)
+    start_with_part(ctx)
     ctx.sample({'scenario_key': D.scen_key(rows[3][0]), 'cfg': rows[3][0]['cfg'], 'consts': rows[3][0]['consts'], 'observed': rows[3][2]})
 
     def search(budget):
         D.sweep(ctx, scens(ctx, 1500), [oracle, oracle_zero], [], nontriv)
     conclude(ctx, diffs, search)
-    ctx.assumptions += ['--start-with-pass and the give-up limit are judged in the C16 part of the world harness (check_C04/C17 use the same runs)']
+    ctx.assumptions += ['--start-with-pass is judged on the real code only (direct oracle over per-pass statistics): the L2 model has no such option',
+                        'the give-up limit is part of the model (check: e.order > giveup) and of the scenario generator (small patched GIVEUP_CONSTANT, endless passes in C09)']
     return ctx.finish(obligations=OBLIGATIONS,
                       rule='limits drawn from {None,0,1,2,boundary}, small patched constants for give-up and directory caps; accepted-step log from a wrapper of process_result; '
                            'non-trivial = run with a commit under an active limit')
